@@ -8,9 +8,9 @@ use nom::number::complete::double;
 use nom::IResult;
 
 // Constants representing time units in nanoseconds
-const SECOND: u64 = 1_000_000_000;
-const MILLISECOND: u64 = 1_000_000;
-const MICROSECOND: u64 = 1_000;
+const SECOND: u128 = 1_000_000_000;
+const MILLISECOND: u128 = 1_000_000;
+const MICROSECOND: u128 = 1_000;
 
 /// Parses a duration string into a [`Duration`]. Duration strings support the
 /// following grammar:
@@ -102,21 +102,14 @@ pub fn format_duration(d: &Duration) -> String {
     let mut w = buf.len();
 
     let mut neg = false;
-    let mut u = d
-        .num_nanoseconds()
-        .map(|n| {
-            if n < 0 {
-                neg = true;
-            }
-            n.unsigned_abs()
-        })
-        .unwrap_or_else(|| {
-            let s = d.num_seconds();
-            if s < 0 {
-                neg = true;
-            }
-            s.unsigned_abs() * SECOND
-        });
+    // chrono durations reach +-i64::MAX milliseconds, about a million times beyond the i64
+    // nanosecond range of Go's Duration: count the nanoseconds in 128 bits so that the
+    // out-of-range case neither overflows nor loses the sub-second part.
+    let n = i128::from(d.num_seconds()) * 1_000_000_000 + i128::from(d.subsec_nanos());
+    if n < 0 {
+        neg = true;
+    }
+    let mut u = n.unsigned_abs();
 
     if u < SECOND {
         // Special case: if duration is smaller than a second,
@@ -175,7 +168,7 @@ pub fn format_duration(d: &Duration) -> String {
     String::from_utf8_lossy(&buf[w..]).into_owned()
 }
 
-fn format_float(buf: &mut [u8], mut v: u64, prec: usize) -> (usize, u64) {
+fn format_float(buf: &mut [u8], mut v: u128, prec: usize) -> (usize, u128) {
     let mut w = buf.len();
     let mut print = false;
     for _ in 0..prec {
@@ -194,7 +187,7 @@ fn format_float(buf: &mut [u8], mut v: u64, prec: usize) -> (usize, u64) {
     (w, v)
 }
 
-fn format_int(buf: &mut [u8], mut v: u64) -> usize {
+fn format_int(buf: &mut [u8], mut v: u128) -> usize {
     let mut w = buf.len();
     if v == 0 {
         w -= 1;
